@@ -384,6 +384,36 @@ Section Parse.
     if negb (is_response q m) then Lib neBadResponse
     else Ok (m, wire, rs_now sk - begin_time, sent, sk).
 
+  (* udp_with_fallback(q, where, timeout, ..., udp_sock, tcp_sock, ignore_errors): udp() with
+     raise_on_truncation=True; on Truncated the query is repeated over TCP.  tcp() computes its
+     own deadline from the clock at that moment = start + the would-blocks waited out so far
+     (the udp socket accepts the send at once in this entry point). *)
+  Definition with_rot (o : uopts) : uopts :=
+    {| o_ignore_unexpected := o_ignore_unexpected o; o_one_rr_per_rrset := o_one_rr_per_rrset o;
+       o_ignore_trailing := o_ignore_trailing o; o_raise_on_truncation := true;
+       o_ignore_errors := o_ignore_errors o |}.
+
+  Fixpoint blocks_time (evs : list uev) : Z :=
+    match evs with
+    | [] => 0
+    | UBlock (Some d) :: r => d + blocks_time r
+    | _ :: r => blocks_time r
+    end.
+
+  Definition udp_with_fallback (q : msg) (qwire : list Z) (where_ : addr) (timeout : option Z) (af : Z)
+             (o : uopts) (evs : list uev) (wevs : list txev) (stream : list Z) (revs : list rxev)
+             (now : Z) : res (bool * (msg * list Z * Z)) :=
+    match udp q qwire where_ timeout af (with_rot o) [] evs now with
+    | (_, Ok (r, w, t, _, _)) => Ok (false, (r, w, t))
+    | (i, Lib e) =>
+        if e =? neTruncated then
+          do x <- tcp q qwire timeout (o_ignore_trailing o) wevs stream revs
+                      (now + blocks_time (firstn i evs));
+          let '(m, w, t, _, _) := x in Ok (true, (m, w, t))
+        else Lib e
+    | (_, Internal e) => Internal e
+    end.
+
   (* k successive receive_tcp calls on one connection; stops at the first error *)
   Fixpoint receive_tcp_n (expiration : option Z) (ignore_trailing : bool) (k : nat) (sk : rsock)
     : list (res (msg * list Z * Z)) :=
@@ -678,6 +708,16 @@ Definition run (c : obs) : obs :=
                             L [B w; enc_msg m; I time; B sent; B (rs_stream sk)])
                   (tcp (lookup tab) q qwire t it wevs s revs now))
       | _, _, _, _, _, _, _ => E eBad
+      end
+  (* udp_with_fallback *)
+  | L [I 10; q; B qwire; where_; timeout; I af; o; L tab; L evs; L wevs; stream; L revs; I now] =>
+      match dec_msg q, dec_addr where_, dec_oz timeout, dec_uopts o, dec_list dec_tab_entry tab,
+            dec_list dec_uev evs, dec_list dec_wev wevs, dec_stream stream, dec_list dec_rev revs with
+      | Some q, Some w, Some t, Some o, Some tab, Some evs, Some wevs, Some s, Some revs =>
+          both (enc_res (fun r => let '(used_tcp, (m, wire, time)) := r in
+                                  L [ob used_tcp; B wire; enc_msg m; I time])
+                  (udp_with_fallback (lookup tab) q qwire w t af o evs wevs s revs now))
+      | _, _, _, _, _, _, _, _, _ => E eBad
       end
   | _ => E eBad
   end.
